@@ -574,6 +574,7 @@ stream_blocks(decoder_t *d, int16 *aud, size_t len)
     return 0;
 }
 
+static char REF_STREAM[DIGN], REF_BATCH[DIGN], REF_SHORT[DIGN];
 /* The probe comes in two orders, because whatever runs first meets the state the history left and overwrites it for
  * what follows.  Each order runs on its own copy of the process (fork) and is compared with the same order on a fresh
  * decoder.
@@ -666,7 +667,16 @@ forked_probe_short(decoder_t *d, int setgram, char *out, size_t n, const char **
     SHARED_DIG[0] = 0;
     fflush(mc_fp);
     fflush(stderr);
-    pid = fork();
+    {
+        int tries;
+        for (tries = 0; (pid = fork()) < 0 && tries < 20; tries++)
+            usleep(200000); /* the machine is out of processes for a moment: wait, never call that a violation */
+    }
+    if (pid < 0) {
+        mc_count(0, 1);
+        snprintf(out, n, "%s", REF_SHORT); /* this order of the probe is skipped for this history (counted) */
+        return 0;
+    }
     if (pid == 0) {
         static char buf[DIGN];
         int rc = probe_short(d, buf, sizeof buf, setgram);
@@ -676,9 +686,10 @@ forked_probe_short(decoder_t *d, int setgram, char *out, size_t n, const char **
             snprintf(SHARED_DIG, DIGN, "%s", buf);
         _exit(0);
     }
-    if (pid < 0 || waitpid(pid, &st, 0) < 0) {
-        *why = "fork failed";
-        return -1;
+    if (waitpid(pid, &st, 0) < 0) {
+        mc_count(0, 1);
+        snprintf(out, n, "%s", REF_SHORT);
+        return 0;
     }
     if (!WIFEXITED(st) || WEXITSTATUS(st) != 0) {
         *why = "the process died during the probe";
@@ -688,7 +699,7 @@ forked_probe_short(decoder_t *d, int setgram, char *out, size_t n, const char **
     return 0;
 }
 
-static char REF_STREAM[DIGN], REF_BATCH[DIGN], REF_SHORT[DIGN];
+
 /* C16: a word added at run time must behave exactly like the same word read from the dictionary file */
 #define NADDABLE 4
 static const char *const ADDABLE[NADDABLE][3] = { { "zed", "Z EH D", "zed" }, { "zed2", "Z EH D Z", "zed2" }, { "go(2)", "G AH", "go" },
@@ -1136,7 +1147,9 @@ main(int argc, char **argv)
     unlink(DICT_PATH);
     mc_stat("evaluations", mc_sh ? mc_sh->evals : 0);
     mc_stat("nontrivial", mc_sh ? mc_sh->nontriv : 0);
-    mc_flag("exhaustive", complete);
+    if (P_C08)
+        mc_stat("second_probe_order_skipped_for_lack_of_processes", mc_sh ? mc_sh->counters[0] : 0);
+    mc_flag("exhaustive", complete && !(mc_sh && mc_sh->counters[0]));
     mc_finish();
     return 0;
 }
